@@ -90,11 +90,22 @@ def _quant(ip, args, universal, pats=None):
         x = ip.retag(L.nth(sv.term, j), ip.elem_tag(sv))
         pat = [L.nth(sv.term, j)]
     b = as_bool(ip.call_closure(body, [x]))
+    if len(args) > 2:
+        # explicit trigger: forall(dom, lambda j: body, lambda j: term)
+        tv = ip.call_closure(args[2], [x])
+        tvs = tv.items if isinstance(tv, PySeq) else [tv]
+        pat = [z3.MultiPattern(*[_term(t) for t in tvs])] if len(tvs) > 1 else [_term(tvs[0])]
     if universal:
         q = z3.ForAll([j], z3.Implies(guard, b), patterns=pat) if pat else z3.ForAll([j], z3.Implies(guard, b))
     else:
         q = z3.Exists([j], z3.And(guard, b))
     return ZB(q)
+
+
+def _term(v):
+    if isinstance(v, (ZB, ZI, ZS)):
+        return v.term
+    return as_v(v)
 
 
 @spec("forall")
@@ -134,7 +145,7 @@ def _effects(ip, args, kw):
     return ZV(ip.st.effects, "seq")
 
 
-@spec("prefix")
+@spec("seq_prefix")
 def _prefix(ip, args, kw):
     """prefix(s, i) = s[:i] as a sequence term."""
     sv = ip.seq_of(args[0])
@@ -163,3 +174,25 @@ def _prefixof(ip, args, kw):
 
 R.SPEC["true"] = PyC(True)
 R.SPEC["false"] = PyC(False)
+
+
+@spec("concat")
+def _concat(ip, args, kw):
+    parts = [as_str(a) for a in args]
+    return ZS(z3.Concat(*parts) if len(parts) > 1 else parts[0])
+
+
+@spec("str_join")
+def _str_join(ip, args, kw):
+    return ZS(L.fn("str_join", L.S, L.V, L.S)(as_str(args[0]), as_v(args[1])))
+
+
+@spec("boxs")
+def _boxs(ip, args, kw):
+    """A string as an element of a sequence."""
+    return ZV(L.box_str(as_str(args[0])), "str")
+
+
+@spec("unboxs")
+def _unboxs(ip, args, kw):
+    return ZS(L.unbox_str(as_v(args[0])))
